@@ -12,6 +12,8 @@ pub mod result;
 pub mod service_main;
 pub mod structs;
 
+mod handler_drv; // X02_EXTHANDLER: handler commands and service loop (checks/x02_exthandler.py)
+
 use std::io::{BufRead, Write};
 
 // handler_main.rs refers to crate::ExtensionCommand (declared in the real main.rs)
@@ -246,6 +248,7 @@ fn main() {
                 )
                 .unwrap();
             }
+            "handler" => handler_drv::run(&line, &mut out),
             other => panic!("unknown kind {}", other),
         }
     }
